@@ -60,9 +60,9 @@ func hasDotSeg(p string) bool {
 func main() {
 	flag.Parse()
 	alpha := []byte{'/', '.', 'a', '\\'}
-	maxLen := 8
+	maxLen := 9
 	if vcommon.Thorough() {
-		maxLen = 10
+		maxLen = 11
 	}
 	var viols []vcommon.Violation
 	evals, climbers := 0, 0
@@ -104,6 +104,11 @@ func main() {
 	for l := 0; l <= maxLen; l++ {
 		rec(make([]byte, 0, maxLen), l)
 	}
+	// second alphabet: percent-escapes must stay literal text (the function takes a URL *path*, already decoded)
+	alpha = []byte{'/', '.', '%', '2', 'e', 'f'}
+	for l := 1; l <= 7; l++ {
+		rec(make([]byte, 0, 8), l)
+	}
 	for _, p := range []string{"%2e%2e/x", "..%2f", "a/../../../../../etc/passwd", "/..", "....//", "/a/b/../../../c", "\x00/..", "..\\..\\x"} {
 		check(p)
 	}
@@ -112,7 +117,7 @@ func main() {
 	vcommon.WriteEvidence(&vcommon.Evidence{PropertyID: "C17", Level: "exploration", Violations: n,
 		Coverage: map[string]any{
 			"evaluations": evals, "distinct_nontrivial": climbers,
-			"rule":       "every string of length <= " + fmt.Sprint(maxLen) + " over {'/', '.', 'a', '\\\\'} x 12 bases (absolute, relative, '.', trailing slash, '..' inside and leading); the result must be the cleaned base or lexically beneath it (segment-wise, no '..' below the base), and for paths free of dot segments equal Clean(base + '/' + path); non-trivial = paths containing '..'",
+			"rule":       "every string of length <= " + fmt.Sprint(maxLen) + " over {'/', '.', 'a', '\\\\'} x 12 bases (absolute, relative, '.', trailing slash, '..' inside and leading); the result must be the cleaned base or lexically beneath it (segment-wise, no '..' below the base), and for paths free of dot segments equal Clean(base + '/' + path); non-trivial = paths containing '..'; plus every string of length <= 7 over {'/', '.', '%', '2', 'e', 'f'} (percent-escapes must stay literal)",
 			"exhaustive": true, "bases": bases, "samples": []any{"/../a", "..", "/a/..//../.", "\\..\\a"},
 		},
 		Assumptions: []string{"POSIX file system: the backslash is an ordinary character", "containment is lexical (symbolic links on disk are outside the function's contract)"}})
